@@ -16,6 +16,8 @@ VECTORS = {
     "compact": impl.vec(append_version=False, compact=True, remove_labels=True),
     "pushpop": impl.vec(append_version=False, inline_functions=False, use_push_pop_functions=True),
     "tail": impl.vec(append_version=False, inline_functions=False, tail_call_optimization=True),
+    "tailinline": impl.vec(append_version=False, tail_call_optimization=True),
+    "pushpopinline": impl.vec(append_version=False, use_push_pop_functions=True),
     "all": impl.vec(original_code_as_comment=True, generated_comments=True, inline_functions=True,
                     remove_labels=True, append_version=True, compact=True, tail_call_optimization=True,
                     use_push_pop_functions=True),
